@@ -19,6 +19,8 @@ GENS = [
     ("hostile", 3000, 100000, [], []),
     ("v1", 2000, 30000, [], []),
     ("bomb", 8, 16, [], ["--big", "1"]),
+    # machines at the documented size limit (largest that fits / one state more)
+    ("limit", 2, 8, [], []),
 ]
 
 
